@@ -153,6 +153,13 @@ impl MuxStream {
         if new >= self.rwnd_threshold {
             // Reset the counter
             self.psh_recvd_since = 0;
+            if self.rx_frame_rx.is_closed() {
+                // The task has dropped its end of the queue: either the peer sent `Finish`
+                // and has no use for more credit, or the flow is closed and its ID may
+                // already belong to a newer stream, which this frame would be credited to.
+                trace!("not acknowledging {new} frames of a closed flow");
+                return;
+            }
             // Send an `Acknowledge` frame
             trace!("sending `Acknowledge` of {new} frames");
             self.tx_msg_tx
